@@ -283,6 +283,17 @@ func zeroOf(t types.Type) interface{} {
 		if b, ok := u.Elem().Underlying().(*types.Basic); ok && b.Kind() == types.Byte {
 			return Bytes{Nil: true}
 		}
+	case *types.Struct:
+		// a struct held by value: its zero value, field by field
+		name := "struct"
+		if n, ok := t.(*types.Named); ok {
+			name = n.Obj().Name()
+		}
+		st := &Struct{Type: name, Fields: map[string]interface{}{}}
+		for i := 0; i < u.NumFields(); i++ {
+			st.Fields[u.Field(i).Name()] = zeroOf(u.Field(i).Type())
+		}
+		return st
 	case *types.Array:
 		if u.Len() > 1<<16 {
 			return Nil{}
